@@ -203,8 +203,10 @@ namespace igris
                     // rnrnrnrn
                     if ((_last == '\n' || _last == '\r') && _last != c)
                     {
+                        // second half of a CR LF / LF CR pair: swallowed, and it
+                        // must not itself pair with the next CR or LF
                         _last = 0;
-                        retcode = READLINE_NOTHING;
+                        return READLINE_NOTHING;
                     }
                     else
                     {
